@@ -21,7 +21,7 @@ use dump::{data_from_real, data_tokens, optstr_tokens, In, MData, MFsm};
 use rufsm::actions::ActionWrapper;
 use rufsm::datamodel::{create_data_arc, Data, SourceCode};
 use rufsm::executable_content::{Expression, ForEach, If, Log, Script, SendParameters};
-use rufsm::executable_content::{get_executable_content_as, ExecutableContent};
+use rufsm::executable_content::get_executable_content_as;
 use rufsm::fsm::{Event, Fsm};
 use rufsm::scxml_reader;
 use rufsm::serializer::default_protocol_reader::DefaultProtocolReader;
@@ -245,7 +245,7 @@ fn ops_json(ops: &[WOp]) -> Value {
                 WOp::O(o) => json!({"o": o.as_ref().map(|s| hex(s.as_bytes()))}),
                 WOp::D(d) => {
                     let t = data_tokens(d);
-                    json!({"d": if t.len() > 400 { format!("{}…({} chars)", &t[..400], t.len()) } else { t }})
+                    json!({"d": if t.len() > 400 { format!("{}…({} chars)", cut(&t, 400), t.len()) } else { t }})
                 }
             })
             .collect(),
@@ -379,7 +379,7 @@ fn trunc_dbg(v: &[RVal]) -> Vec<String> {
         .map(|x| {
             let s = format!("{:?}", x);
             if s.len() > 120 {
-                format!("{}…", &s[..120])
+                format!("{}…", cut(&s, 120))
             } else {
                 s
             }
@@ -387,9 +387,17 @@ fn trunc_dbg(v: &[RVal]) -> Vec<String> {
         .collect()
 }
 
+fn cut(s: &str, n: usize) -> &str {
+    let mut k = n.min(s.len());
+    while !s.is_char_boundary(k) {
+        k -= 1;
+    }
+    &s[..k]
+}
+
 fn short(s: &str) -> String {
     if s.len() > 300 {
-        format!("{}…({} chars)", &s[..300], s.len())
+        format!("{}…({} chars)", cut(s, 300), s.len())
     } else {
         s.to_string()
     }
@@ -1009,8 +1017,15 @@ fn trace_filter(t: &[String]) -> Vec<String> {
     t.iter().filter(|l| !l.starts_with("msg ")).cloned().collect()
 }
 
+fn dbg(msg: &str) {
+    if std::env::var("CODEC_TRACE").is_ok() {
+        eprintln!("[codec] {}", msg);
+    }
+}
+
 pub fn check_fsm(c: &FsmCase, big: bool, model: &mut Model, rep: &mut Report, origin: &str) {
     rep.evaluations += 1;
+    dbg(&format!("fsm case {} xml={}", origin, short(&c.xml)));
     let fsm = match build_fsm(c, big, rep) {
         Ok(f) => f,
         Err(e) => {
@@ -1074,6 +1089,7 @@ pub fn check_fsm(c: &FsmCase, big: bool, model: &mut Model, rep: &mut Report, or
             rep.count("transition_cond_empty_not_null");
         }
     }
+    dbg("write");
     // ---- write: real vs model
     let w = real_write_image(&fsm);
     let m = model.ask(&format!("codec enc-fsm {}", orig_tokens));
@@ -1112,6 +1128,7 @@ pub fn check_fsm(c: &FsmCase, big: bool, model: &mut Model, rep: &mut Report, or
     if w.has_error {
         rep.oracle_fail("C05:fsm:writer-error-on-vec", case_json(c, origin));
     }
+    dbg("read back");
     // ---- read back: real vs model
     let back = real_read_image(&w.bytes);
     let back_s = readout_string(&back);
@@ -1122,6 +1139,7 @@ pub fn check_fsm(c: &FsmCase, big: bool, model: &mut Model, rep: &mut Report, or
         j["detail"] = json!(first_diff(&ans, &back_s));
         rep.disagree(j);
     }
+    dbg("oracle");
     // ---- oracle: structure
     let want = format!("ok 0 {}", orig.clone().persisted_view().canon().tokens());
     let mut structural_ok = true;
@@ -1145,11 +1163,13 @@ pub fn check_fsm(c: &FsmCase, big: bool, model: &mut Model, rep: &mut Report, or
         }
     }
     // ---- oracle: behaviour (iii)
-    if c.behave && structural_ok {
+    let timeouts = rep.dist.get("behaviour_original_panicked_or_timed_out").cloned().unwrap_or(0);
+    if c.behave && structural_ok && timeouts < 3 {
         if let ReadOut::Ok(reloaded, _) = back {
+            dbg("behaviour");
             let events: Vec<Event> = c.events.iter().map(|n| Event::new_simple(n)).collect();
-            let a = run_session(fsm, &events, ActionWrapper::new(), true, Duration::from_secs(20), true);
-            let b = run_session(reloaded, &events, ActionWrapper::new(), true, Duration::from_secs(20), true);
+            let a = run_session(fsm, &events, ActionWrapper::new(), true, Duration::from_secs(10), true);
+            let b = run_session(reloaded, &events, ActionWrapper::new(), true, Duration::from_secs(10), true);
             rep.count("behaviour_runs");
             rep.add("behaviour_trace_lines", a.trace.len() as u64);
             if a.panicked || a.timed_out {
@@ -1183,7 +1203,7 @@ pub fn gen_fsm_case(p: &mut Prng, behave: bool, big: bool, rep: &mut Report) -> 
         rep.add(&format!("doc_{}", k), v);
     }
     let events = if behave {
-        (0..p.below(8)).map(|_| p.pick(gen::EVENTS).to_string()).collect()
+        (0..p.below(8)).map(|_| p.pick(gen::TRIGGERS).to_string()).collect()
     } else {
         vec![]
     };
@@ -1240,13 +1260,27 @@ pub fn run_c05(args: &Args, model: &mut Model) -> Report {
         }
         return rep;
     }
-    for c in prim_corpus() {
-        check_prims(&c, model, &mut rep, "corpus");
+    let only = |k: &str| args.extra.iter().all(|x| !x.starts_with("only=")) || args.extra.iter().any(|x| x == &format!("only={}", k));
+    if only("prims") {
+        for c in prim_corpus() {
+            check_prims(&c, model, &mut rep, "corpus");
+        }
     }
-    for c in fsm_corpus() {
-        check_fsm(&c, true, model, &mut rep, "corpus");
+    if only("fsm") {
+        for c in fsm_corpus() {
+            check_fsm(&c, true, model, &mut rep, "corpus");
+        }
     }
-    let (np, nr, nf) = if args.thorough { (6000, 6000, 2500) } else { (500, 600, 260) };
+    let (mut np, mut nr, mut nf) = if args.thorough { (6000, 6000, 2500) } else { (500, 600, 260) };
+    if !only("prims") {
+        np = 0;
+    }
+    if !only("raw") {
+        nr = 0;
+    }
+    if !only("fsm") {
+        nf = 0;
+    }
     for i in 0..np {
         let mut p = Prng::for_case(args.seed, i);
         let c = gen_prim_case(&mut p);
@@ -1268,10 +1302,14 @@ pub fn run_c05(args: &Args, model: &mut Model) -> Report {
 }
 
 pub fn run(args: &Args, model: &mut Model) -> Report {
-    if args.family == "c18" {
-        run_c18(args, model)
-    } else {
-        run_c05(args, model)
+    // main() silences the panic hook; a panic of the harness itself must not be lost
+    let r = catch_unwind(AssertUnwindSafe(|| if args.family == "c18" { run_c18(args, model) } else { run_c05(args, model) }));
+    match r {
+        Ok(rep) => rep,
+        Err(p) => {
+            eprintln!("harness panicked: {}", panic_text(p));
+            std::process::exit(3);
+        }
     }
 }
 
